@@ -55,6 +55,100 @@ def unfold(t):
     return tuple(unfold(x) if isinstance(x, tuple) else x for x in t)
 
 
+INVERSES = (("asin", "sin", False), ("acos", "cos", False), ("atan", "tan", False), ("asinh", "sinh", False), ("acosh", "cosh", False), ("atanh", "tanh", False),
+            ("acsc", "sin", True), ("asec", "cos", True), ("acot", "tan", True), ("acsch", "sinh", True), ("asech", "cosh", True), ("acoth", "tanh", True))
+
+
+def _reference_forms(name):
+    """The standard principal-value definitions as trees in SymExec's language (z = ('in', ('param', 0)))."""
+    Z = ("in", ("param", 0))
+    I_ = ("cplx", num(0), num(1))
+    one = ("cplx", num(1), num(0))
+    HP = ("const", "std::f64::consts::FRAC_PI_2")
+
+    def o(sym, a, b):
+        return ("op", sym, a, b)
+
+    def sq(a):
+        return ("ccall", "sqrt", a)
+
+    def ln(a):
+        return ("ccall", "ln", a)
+    zz = o("*", Z, Z)
+    iz = o("*", I_, Z)
+    u = o("+", iz, sq(o("-", one, zz)))
+    if name == "asin":
+        return [o("*", ("neg", I_), ln(u))]
+    if name == "acos":
+        return [o("+", HP, o("*", I_, ln(u))), o("*", ("neg", I_), ln(o("+", Z, o("*", I_, sq(o("-", one, zz))))))]
+    if name == "atan":
+        return [o("*", o("*", I_, num("0.5")), o("-", ln(o("-", one, iz)), ln(o("+", one, iz))))]
+    if name == "asinh":
+        return [ln(o("+", Z, sq(o("+", zz, one))))]
+    if name == "acosh":
+        return [ln(o("+", Z, o("*", sq(o("-", Z, one)), sq(o("+", Z, one)))))]
+    if name == "atanh":
+        return [o("*", num("0.5"), o("-", ln(o("+", one, Z)), ln(o("-", one, Z))))]
+    return []
+
+
+def rule_inverse_functions(rep, pdb):
+    """right-inverse identity and branch structure of the twelve inverse functions, by exact algebra (rules/cxalg.py)."""
+    from . import cxalg
+    r_id = ("f(f^-1(z)) = z (for the inverses of the reciprocal functions: f(f^-1(z)) = 1/z) holds as an exact identity: the body is "
+            "normalised to c0 + sum c_j ln(u_j) over Q[z,i,s_k]/(i^2+1, s_k^2-r_k) and the forward function is applied through its "
+            "exponential definition using only exp(ln u) = u, exp(i k pi/2) = i^k and sqrt(r)^2 = r")
+    r_br = ("the logarithmic form of the inverse function is the standard principal-value definition (same coefficients, same logarithm "
+            "arguments and the same square-root radicands, all compared as polynomials): a different grouping of square roots or "
+            "logarithms moves the branch cuts")
+    memo = {}
+
+    def tree_of(path):
+        if path not in memo:
+            fn = pdb.fn(path)
+            memo[path] = None
+            if fn is not None and len(fn.get("params", [])) == 1:
+                try:
+                    memo[path] = SymExec(pdb, fn).run()
+                except NotStraight:
+                    memo[path] = None
+        return memo[path]
+    n = 0
+    for name, fwd, recip in INVERSES:
+        path = "%s::%s" % (CF, name)
+        fn = pdb.fn(path)
+        if fn is None:
+            rep.missing("right-inverse/%s" % name, r_id, "function %s not found" % path)
+            continue
+        try:
+            t = SymExec(pdb, fn).run()
+            R = cxalg.Ring()
+            # for the inverse of a reciprocal function the argument is written 1/w, so that g^-1(1/z) sees the polynomial w
+            z = cxalg.LogLin(R, (cxalg.p_const(1), cxalg.p_var("z")) if recip else (cxalg.p_var("z"), cxalg.p_const(1)))
+            T = cxalg.evaluate(t, R, z, tree_of)
+            w = cxalg.forward(R, fwd, T)
+            want = R.e_div(R.e_const(1), z.c0) if recip else z.c0
+            ok = bool(w[1]) and R.e_eq(w, want)
+            det = "%s(z) = %s;  %s(that) %s %s" % (name, cxalg.show_loglin(R, T), fwd, "==" if ok else "!=", "1/z" if recip else "z")
+        except (NotStraight, cxalg.NotAlgebraic) as ex:
+            rep.missing("right-inverse/%s" % name, r_id, "the body of %s is not a logarithmic form the algebra can normalise (%s)" % (path, ex), where=loc(fn["body"]))
+            continue
+        rep.add("right-inverse/%s" % name, r_id, ok, fn["body"], det, where=loc(fn["body"]))
+        n += 1
+        if recip:
+            continue
+        same = False
+        for ref in _reference_forms(name):
+            R2 = cxalg.Ring()
+            z2 = cxalg.LogLin(R2, (cxalg.p_var("z"), cxalg.p_const(1)))
+            T2 = cxalg.evaluate(ref, R2, z2, None)
+            if cxalg.same_loglin(R, T, R2, T2):
+                same = True
+                break
+        rep.add("inverse-branch/%s" % name, r_br, same, fn["body"], "%s(z) = %s" % (name, cxalg.show_loglin(R, T)), where=loc(fn["body"]))
+    return n
+
+
 def run(rep, pdb, tier):
     def body_of(name):
         fn = pdb.fn("%s::%s" % (CF, name))
@@ -110,13 +204,17 @@ def run(rep, pdb, tier):
     a_ = fn_("powf", r2_, mul(num("0.5"), XR))
     b_ = mul(XR, th)
     check("pow", "powf", ("cplx", mul(a_, fn_("cos", b_)), mul(a_, fn_("sin", b_))), "powf is the Im w = 0 instance of pow")
+    n_inv = rule_inverse_functions(rep, pdb)
+    rep.floor("right-inverse/", 12)
+    rep.floor("inverse-branch/", 6)
     rep.floor("primitive-forms/", 6)
     rep.floor("quotients/", 3)
     rep.floor("reciprocals/", 6)
     rep.floor("inverse-of-reciprocal/", 6)
     rep.floor("principal/", 3)
     rep.floor("pow/", 2)
-    rep.assumptions += ["ONLY the compositional skeleton of C14 is decided: primitive closed forms, quotient / reciprocal / inverse-of-reciprocal pairings, provenance of the principal branch of ln and sqrt from atan2, the expansion of z^w",
-                        "NOT decided (not applicable to static analysis): agreement with the defining series, right-inverse identities f(f^-1(z)) = z, branch ranges of asin/acos/atan and the hyperbolic twins on both sides of each cut, behaviour next to branch points",
+    rep.assumptions += ["decided: the compositional skeleton (primitive closed forms, quotient / reciprocal / inverse-of-reciprocal pairings, provenance of the principal branch of ln and sqrt from atan2, the expansion of z^w) and, for the twelve inverse functions, the right-inverse identity f(f^-1(z)) = z as an exact identity in Q[z,i,s_k]/(i^2+1, s_k^2-r_k) (valid for every branch of the square roots and logarithms; exp(ln u) = u and sqrt(r)^2 = r are the only facts used), plus the branch structure: the logarithmic form equals the standard principal-value definition (Abramowitz & Stegun 4.4.26-31, 4.6.20-25) with logarithm and square-root arguments compared as polynomials",
+                        "trusted: the forward functions are their exponential definitions (primitive-forms/* decide that the bodies are the matching closed forms in real functions); ln and sqrt are the principal ones (principal/* decide their provenance from atan2)",
+                        "NOT decided (not applicable to static analysis): agreement with the defining series in floating point, rounding near branch points, the numerical range of Re asin / Re acos as such (it follows from the standard logarithmic form, which is what is compared)",
                         "an implementation through a different but equivalent closed form would be reported as a missing anchor (accepted for these textbook definitions)"]
     return {}
